@@ -3,9 +3,12 @@ package main
 import (
 	"bytes"
 	"context"
+	"encoding/binary"
 	"fmt"
+	"github.com/fullstorydev/grpchan/inprocgrpc"
 	"io"
 	"net/http"
+	"net/http/httptest"
 	"net/url"
 	"runtime"
 	"sort"
@@ -357,9 +360,14 @@ func runScripts(o *hx.Out, r *hx.Rand, n int, allowBad bool) {
 func runUnaryStatus(o *hx.Out, r *hx.Rand, n int) {
 	var retErr error
 	var withResp bool // the failing handler also returns a (partial) response, as `return rsp, err` does
+	var sendHdr bool  // the handler calls grpc.SendHeader instead of grpc.SetHeader
 	var hdrs, tlrs metadata.MD
 	svc := &hx.Svc{Unary: func(ctx context.Context, req *hx.Msg) (*hx.Msg, error) {
-		grpc.SetHeader(ctx, hdrs)
+		if sendHdr {
+			grpc.SendHeader(ctx, hdrs) // sent at once instead of left to the end of the call
+		} else {
+			grpc.SetHeader(ctx, hdrs)
+		}
 		grpc.SetTrailer(ctx, tlrs)
 		if retErr != nil {
 			if withResp {
@@ -409,6 +417,7 @@ func runUnaryStatus(o *hx.Out, r *hx.Rand, n int) {
 			}
 			retErr = st.Err()
 			withResp = i%3 == 1
+			sendHdr = i%5 == 2
 			wrapped := ""
 			if r.Chance(20) {
 				inner := []error{context.DeadlineExceeded, context.Canceled}[r.Intn(2)]
@@ -643,7 +652,7 @@ func requestMetadata(o *hx.Out, r *hx.Rand) {
 	binVals := []string{"QUJD", "", "plain", "\x00\x01\xff\xfe", "a b\n", "YQ==", "===="}
 	id := 0
 	for _, t := range bothTransports(svc) {
-		for _, how := range []string{"md", "append", "md+append", "append twice"} {
+		for _, how := range []string{"md", "append", "md+append", "append twice", "md+credentials", "md+append+credentials"} {
 			for _, stream := range []bool{false, true} {
 				base := metadata.MD{"k-plain": {"v1", "v 2"}, "k-bin": {binVals[r.Intn(len(binVals))], binVals[r.Intn(len(binVals))]}}
 				extra := []string{"x-bin", binVals[r.Intn(len(binVals))], "k-plain", "v3", "x-bin", binVals[r.Intn(len(binVals))], "y", "z"}
@@ -653,7 +662,12 @@ func requestMetadata(o *hx.Out, r *hx.Rand) {
 					ctx = metadata.NewOutgoingContext(ctx, base.Copy())
 					want = metadata.Join(want, base)
 				}
-				if how != "md" {
+				withCreds := strings.HasSuffix(how, "credentials")
+				if how == "md+credentials" || how == "md+append+credentials" {
+					ctx = metadata.NewOutgoingContext(ctx, base.Copy())
+					want = metadata.Join(want, base)
+				}
+				if how != "md" && how != "md+credentials" {
 					ctx = metadata.AppendToOutgoingContext(ctx, extra...)
 					want = metadata.Join(want, metadata.Pairs(extra...))
 				}
@@ -663,10 +677,17 @@ func requestMetadata(o *hx.Out, r *hx.Rand) {
 				}
 				seen = nil
 				var err error
+				var copts []grpc.CallOption
+				if withCreds {
+					// the credentials contribute values under a key the caller uses too, and under one of their own:
+					// the handler sees the caller's values AND the credentials' (joined, never replaced)
+					copts = append(copts, grpc.PerRPCCredentials(mapCreds{"k-plain": "from-credentials", "authorization": "token"}))
+					want = metadata.Join(want, metadata.Pairs("k-plain", "from-credentials", "authorization", "token"))
+				}
 				if stream {
-					err = streamWithCtx(t.ch, ctx)
+					err = streamWithCtxOpts(t.ch, ctx, copts...)
 				} else {
-					err = t.ch.Invoke(ctx, "/verif.Svc/U", &hx.Msg{}, &hx.Msg{})
+					err = t.ch.Invoke(ctx, "/verif.Svc/U", &hx.Msg{}, &hx.Msg{}, copts...)
 				}
 				ok := err == nil && seen != nil
 				for k, vs := range want {
@@ -685,7 +706,11 @@ func requestMetadata(o *hx.Out, r *hx.Rand) {
 }
 
 func streamWithCtx(ch grpc.ClientConnInterface, ctx context.Context) error {
-	cs, err := ch.NewStream(ctx, hx.StreamDescOf("BD"), "/verif.Svc/BD")
+	return streamWithCtxOpts(ch, ctx)
+}
+
+func streamWithCtxOpts(ch grpc.ClientConnInterface, ctx context.Context, opts ...grpc.CallOption) error {
+	cs, err := ch.NewStream(ctx, hx.StreamDescOf("BD"), "/verif.Svc/BD", opts...)
 	if err != nil {
 		return err
 	}
@@ -910,8 +935,98 @@ func init() {
 		singleCorpus(o)
 		httpClientSchedules(o, r, n, "HLts")
 		secondRequestRefused(o)
+		noResponseUnary(o)
+		singleResponseCuts(o)
 		ltsCases(o, r, profile{name: "single", rounds: [2]int{4, 12}, cancel: 5, handlerEnd: 50, headers: 20, kinds: []string{"CS", "CS", "SS"}, returnCodes: []int64{0, 0, 5, -2}}, n)
 		o.Finding = "finding_case"
 		o.Shard = 60
+	}
+}
+
+// noResponseUnary: a unary handler that produces NO response (nil, or a typed nil, with a nil error) is reported as
+// an error, never as success carrying a zero message -- whatever renders errors on the server
+func noResponseUnary(o *hx.Out) {
+	renderers := []struct {
+		name string
+		fn   func(context.Context, *status.Status, http.ResponseWriter)
+	}{
+		{"default", nil},
+		{"silent (writes nothing, relies on the library's status header)", func(context.Context, *status.Status, http.ResponseWriter) {}},
+		{"always 200 with a text body", func(_ context.Context, st *status.Status, w http.ResponseWriter) {
+			w.WriteHeader(200)
+			w.Write([]byte(st.Message()))
+		}},
+	}
+	id := 7000
+	for _, nilKind := range []string{"untyped nil", "typed nil"} {
+		svc := &hx.Svc{Unary: func(ctx context.Context, req *hx.Msg) (*hx.Msg, error) { return nil, nil }}
+		if nilKind == "typed nil" {
+			svc = &hx.Svc{Unary: func(ctx context.Context, req *hx.Msg) (*hx.Msg, error) { var m *hx.Msg; return m, nil }}
+		}
+		for _, rd := range renderers {
+			var opts []httpgrpc.ServerOption
+			if rd.fn != nil {
+				opts = append(opts, httpgrpc.ErrorRenderer(rd.fn))
+			}
+			hs := httpgrpc.NewServer(opts...)
+			hs.RegisterService(hx.Desc(hx.SvcName), svc)
+			ts := httptest.NewServer(hs)
+			u, _ := url.Parse(ts.URL)
+			ch := &httpgrpc.Channel{Transport: &http.Transport{}, BaseURL: u}
+			out := &hx.Msg{Count: 77}
+			err := ch.Invoke(context.Background(), "/verif.Svc/U", &hx.Msg{}, out)
+			ts.Close()
+			ok := err != nil
+			id++
+			d := map[string]interface{}{"transport": "httpgrpc", "kind": "unary", "handler_returns": nilKind + " response and nil error", "error_renderer": rd.name, "client_result": fmt.Sprint(err)}
+			if !ok {
+				o.Violate("a unary handler that produced no response was reported as success", d, "success", "an error")
+			}
+			checked(o, "no_response_unary_httpgrpc", id, ok, d)
+		}
+		ipc := &inprocgrpc.Channel{}
+		ipc.RegisterService(hx.Desc(hx.SvcName), svc)
+		err := ipc.Invoke(context.Background(), "/verif.Svc/U", &hx.Msg{}, &hx.Msg{})
+		id++
+		d := map[string]interface{}{"transport": "inprocgrpc", "kind": "unary", "handler_returns": nilKind + " response and nil error", "client_result": fmt.Sprint(err)}
+		if err == nil {
+			o.Violate("a unary handler that produced no response was reported as success", d, "success", "an error")
+		}
+		checked(o, "no_response_unary_inprocgrpc", id, err != nil, d)
+	}
+}
+
+// singleResponseCuts: the reply to a single-response call, cut at every byte: success only for the complete reply
+// of a handler that succeeded
+func singleResponseCuts(o *hx.Out) {
+	installRawCodec()
+	frame := func(b []byte, trailer bool) []byte {
+		pre := make([]byte, 4)
+		n := int32(len(b))
+		if trailer {
+			n = -n
+		}
+		binary.BigEndian.PutUint32(pre, uint32(n))
+		return append(pre, b...)
+	}
+	id := 7100
+	for _, code := range []int32{0, 9} {
+		tr, _ := proto.Marshal(&httpgrpc.HttpTrailer{Code: code, Message: "m"})
+		msg, _ := proto.Marshal(&hx.Msg{Count: 5, Payload: []byte("the one response")})
+		body := append(frame(msg, false), frame(tr, true)...)
+		for k := 0; k <= len(body); k++ {
+			for _, abrupt := range []bool{false, true} {
+				success, _, p := runClientSingle(body[:k], abrupt)
+				want := k == len(body) && code == 0
+				ok := p == nil && success == want
+				id++
+				d := map[string]interface{}{"transport": "httpgrpc (scripted reply)", "kind": "CS", "handler": map[int32]string{0: "responded and returned nil", 9: "responded and failed"}[code],
+					"reply_bytes": len(body), "cut_after": k, "ends_abruptly": abrupt, "reported_success": success, "panic": fmt.Sprint(p)}
+				if !ok {
+					o.Violate("a single-response call reported success for a reply that was cut short or carried a failure (or failed on a complete good reply)", d, success, want)
+				}
+				checked(o, "single_response_reply_cut", id, ok, d)
+			}
+		}
 	}
 }
